@@ -20,11 +20,12 @@ RULE = ("continuous and grid worlds, wrapping and not; 0-8 agents on a coarse la
         "equal, one larger than the other}; non-trivial = >=3 agents, >=1 agent exactly on a face of the box and >=1 "
         "agent moved since placement; distinct = (kind, wrap, per query: population, answer size, on-face count, "
         "seam-crossing flag, leeway relation)"
-        "; also: continuous extents in (0,1), rejected duplicate placements between queries, wrap_env reassigned, worlds that are not model.environment, model lifecycle ops, agents carrying own components incl. a PositionComponent subclass with another location, agents that are environments themselves, stretches of the history issued from inside a running timestep")
+        "; also: continuous extents in (0,1), rejected duplicate placements between queries, wrap_env reassigned, worlds that are not model.environment, model lifecycle ops, agents carrying own components incl. a PositionComponent subclass with another location, agents that are environments themselves, stretches of the history issued from inside a running timestep, grid worlds with agents on half-cell positions")
 COMPONENTS = {"real": ["ECAgent.Environments.SpaceWorld.get_agents_at", "add_agent / move / move_to / remove_agent"],
               "stub": ["agents are plain ECAgent agents created by the harness"]}
 PROBES = ["axis_leeway_larger", "general_leeway_larger", "negative_leeway", "empty_answer", "coincident_agents",
-          "query_outside_world", "seam_crossing_box", "agent_on_face", "wrap_world", "moved_since_placement", "rejected_duplicate_add", "model_lifecycle_op", "wrap_mode_switched", "agent_with_position_subclass_component", "agent_is_an_environment", "ops_from_inside_a_timestep"]
+          "query_outside_world", "seam_crossing_box", "agent_on_face", "wrap_world", "moved_since_placement", "rejected_duplicate_add", "model_lifecycle_op", "wrap_mode_switched", "agent_with_position_subclass_component", "agent_is_an_environment", "ops_from_inside_a_timestep",
+          "grid_world_with_half_cell_positions"]
 TECHNIQUE = "deterministic simulation: positional queries inside seeded move/remove histories vs an exact geometric filter (seam-aware in wrapping worlds)"
 LEVEL_TEXT = ("Seeded search over placements, move histories and query boxes; every answer must equal, as an ordered id list, an "
               "exact geometric filter over the reference positions (distance around the seam in wrapping worlds); the query "
@@ -55,6 +56,9 @@ def gen_leeways(rng, ref):
 def generate(rng, tier):
     world = gen_world(rng, kinds=("space", "space", "discrete", "line", "grid"), subunit=0.12)
     world["attached"] = rng.random() < 0.8
+    if world["kind"] != "space" and rng.random() < 0.2:
+        # a grid world whose agents sit OFF the cell lattice (half-cell steps): positions are numbers, not cell indices
+        world.update(w=2 * world["w"], h=2 * world["h"], d=2 * world["d"], den=2)
     ref = RefWorld(world)
     n = rng.randint(0, 12 if tier == "thorough" else 8)
     ops = []
@@ -101,6 +105,8 @@ def execute(sc, ctx):
     flags = {"face": False, "moved": False, "three": False}
     if ref.wrap:
         ctx.probe("wrap_world")
+    if sc["world"]["kind"] != "space" and ref.den == 2:
+        ctx.probe("grid_world_with_half_cell_positions")
     gate = StepGate(ctx)
     for op in sc["ops"]:
         kind = op["op"]
